@@ -35,6 +35,8 @@ def worker(k):
             pid = n.split("-")[0]
             p = subprocess.run([os.path.join(HERE, "tools_seeded.py"), d, pid, "--keep-as", n], cwd=HERE, env=dict(os.environ, SEED_WT=wt), capture_output=True, text=True)
             try:
+                if p.returncode != 0:
+                    raise RuntimeError("tools_seeded.py failed")
                 m = json.load(open(os.path.join(d, "meta.json")))["what_i_ran"]
                 noinput = [l for l in m["check"]["lines"] if l.startswith("VIOLATION")] and all("no-failing-input-found" in l for l in m["check"]["lines"] if l.startswith("VIOLATION"))
                 row = f"{n} demo_without={m['demo_without_change']['exit']} demo_with={m['demo_with_change']['exit']} check={m['check']['exit']} caught={m['caught']}{' (no replayed input)' if noinput else ''}"
